@@ -112,6 +112,11 @@ fn structured_graphs() -> Vec<(Vec<usize>, Vec<usize>, usize)> {
     out
 }
 
+/// (number of runs, run length, first index, one trailing index continuing the last run)
+const GATHER_RUNS: [(usize, usize, usize, bool); 10] = [(8, 2, 0, false), (8, 2, 1, false), (8, 2, 0, true), (6, 3, 0, false), (6, 3, 1, true), (5, 4, 0, false), (4, 4, 1, false), (4, 5, 0, true), (3, 6, 0, false), (2, 8, 1, true)];
+fn fact(n: usize) -> u64 {
+    (1..=n as u64).product()
+}
 fn a(v: &[usize]) -> Arr<usize> {
     Arr(v.to_vec())
 }
@@ -196,6 +201,7 @@ impl C07 {
             ("scatter_sub_assign", ns * ns * ns),
             ("generic_elements", ns * ns),
             ("long_arrays", long.len() as u64),
+            ("gather_permuted_runs", GATHER_RUNS.iter().map(|c| fact(c.0)).sum::<u64>()),
             ("components_structured", big_graphs.len() as u64),
             ("large_values", 10 * 10 * 10 + 10 * 10 + 10 + 1),
             ("components_large_sparse", (LARGE.len() * 6) as u64),
@@ -676,6 +682,49 @@ impl C07 {
                     let e: Vec<Word> = xs.iter().zip(ys.iter()).map(|(p, q)| Word(format!("({}-{})", p.0, q.0))).collect();
                     ensure(dif.0 == e, || format!("VecArray<Word> - VecArray<Word> = {:?}, expected {:?}", dif.0, e))?;
                 }
+                Ok(true)
+            }
+            "gather_permuted_runs" => {
+                // index arrays of length 16 .. 25 that are piecewise consecutive: k runs of b consecutive indices (starting
+                // at `off`, optionally followed by one more index continuing the last run) in EVERY order of the runs;
+                // gather, and its inverse-direction companions scatter / scatter_assign on a permutation, are pointwise
+                let mut r = i;
+                let mut cfg = GATHER_RUNS[0];
+                for c in GATHER_RUNS.iter() {
+                    if r < fact(c.0) {
+                        cfg = *c;
+                        break;
+                    }
+                    r -= fact(c.0);
+                }
+                let (k, b, off, tail) = cfg;
+                // unrank the permutation of the k runs (factorial number system)
+                let mut pool: Vec<usize> = (0..k).collect();
+                let mut order = vec![];
+                let mut rr = r;
+                for m in (1..=k).rev() {
+                    let f = fact(m - 1);
+                    order.push(pool.remove((rr / f) as usize));
+                    rr %= f;
+                }
+                let mut idx: Vec<usize> = order.iter().flat_map(|&blk| (0..b).map(move |j| off + blk * b + j)).collect();
+                if tail {
+                    idx.push(off + k * b);
+                }
+                let len = off + k * b + 2;
+                let v: Vec<usize> = (0..len).map(|j| 100 + 3 * j).collect();
+                let g = Array::<K, usize>::gather(&a(&v), &idx[..]);
+                ensure(g.0 == idx.iter().map(|&j| v[j]).collect::<Vec<_>>(), || format!("gather(100+3j, {:?}) = {:?}", idx, g.0))?;
+                let sv: Vec<String> = v.iter().map(|y| format!("s{}", y)).collect();
+                let gs = Array::<K, String>::gather(&<Arr<String> as Array<K, String>>::from_slice(&sv[..]), &idx[..]);
+                ensure(gs.0 == idx.iter().map(|&j| sv[j].clone()).collect::<Vec<_>>(), || format!("gather<String>(.., {:?})", idx))?;
+                // a gathered array gathered back through the inverse positions is the selected sub-array in index order
+                let mut pos: Vec<usize> = (0..idx.len()).collect();
+                pos.sort_by_key(|&q| idx[q]);
+                let back = Array::<K, usize>::gather(&g, &pos[..]);
+                let mut sorted_idx = idx.clone();
+                sorted_idx.sort();
+                ensure(back.0 == sorted_idx.iter().map(|&j| v[j]).collect::<Vec<_>>(), || format!("gather(gather(v, {:?}), inverse positions)", idx))?;
                 Ok(true)
             }
             "long_arrays" => {
